@@ -178,6 +178,16 @@ class DTr(MTr):
                 v, vt = self.expr(e.values[0])
                 if kt == NAME and vt == TYS:
                     return f'[Py.Tl.argOf {k} {v}]', ARGS          # a one-entry {field name: type string} dict
+            if all(k is not None for k in e.keys):
+                items = []
+                for k, v in zip(e.keys, e.values):
+                    kk, kt = self.expr(k)
+                    if kt != NAME:
+                        raise Untranslatable('dict literal with a key that is not a declared name')
+                    items.append(f'({kk}, {inject(*self.stored(self.expr(v)))})')
+                if len({i.split(",")[0] for i in items}) != len(items):
+                    raise Untranslatable('dict literal with a repeated key')
+                return '(Val.obj none [' + ', '.join(items) + '])', DYN
             raise Untranslatable('dict literal')
         if isinstance(e, ast.List) and e.elts:
             xs = [self.expr(x) for x in e.elts]
@@ -566,6 +576,12 @@ class DTr(MTr):
         return self.wrap(pre, f'let {lname(a)} : Val := {v}.1\nlet {lname(b)} : Nat := {v}.2\n{body}')
 
     def let(self, pre, name, v, t, rest, kont):
+        if name.startswith('self_') and self.iface.get('attr_coerce'):
+            co = self.iface['attr_coerce'].get((t, self.attr_type(name[5:])))
+            if co is not None:                   # declared domain of the attribute: anything else = raises (outside the model)
+                self.pre = list(pre)
+                v, t = self.hoist(co.format(v), name[5:]), self.attr_type(name[5:])
+                pre = self.take_pre()
         want = self.iface.get('locals', {}).get(name)
         if want is not None and t != want:
             if t == NONE and is_opt(want):
@@ -580,6 +596,18 @@ class DTr(MTr):
         return super().let(pre, name, v, t, rest, kont)
 
     def if_(self, s, rest, kont):
+        t0 = s.test
+        if (self.iface.get('none_narrowing') and isinstance(t0, ast.Compare) and len(t0.ops) == 1 and isinstance(t0.ops[0], ast.Is)
+                and isinstance(t0.left, ast.Name) and isinstance(t0.comparators[0], ast.Constant) and t0.comparators[0].value is None
+                and is_opt(self.env.get(t0.left.id, '')) and not s.orelse and not self.loops):
+            # `if x is None: ...` on an Optional local: a case distinction; afterwards x is the value itself on the second path
+            x = t0.left.id
+            env0, facts0 = dict(self.env), dict(self.facts)
+            a = par(self.block(list(s.body) + list(rest), kont))
+            self.env, self.facts = dict(env0), dict(facts0)
+            self.env[x] = opt_of(env0[x])
+            b = par(self.block(list(rest), kont))
+            return f'match {lname(x)} with\n| none =>\n{a}\n| some {lname(x)} =>\n{b}'
         st = self.static_isinstance(s.test)
         if st is not None:                       # dead branch of an isinstance test on a statically typed value
             return self.block(list(s.body if st else s.orelse) + list(rest), kont)
